@@ -7,7 +7,7 @@ import random
 from . import gen_prog as gp
 from .progprops import run_prop, KINDS, PREFIX
 
-KINDS['C15'] = ['unsized', 'unsized2', 'targs:nested_unsized', 'unsized2', 'unsized', 'targs:unsized_arg', 'targs:unsized_where', 'targs:unsized_nested_arg', 'nested_relaxed_inner', 'combo']
+KINDS['C15'] = ['unsized', 'unsized2', 'targs:nested_unsized', 'unsized2', 'unsized', 'targs:unsized_arg', 'targs:unsized_where', 'targs:unsized_nested_arg', 'nested_relaxed_inner', 'combo', 'unsized_free']
 PREFIX['C15'] = ['C15_']
 
 
